@@ -59,13 +59,6 @@ func (s Stream) Each(emit func(c Case)) {
 			st2.NoTCO = true
 			emit(Case{P: p, Src: p.Source(st2), Tags: []string{"twin:notco"}, Twin: "notco", TwinOf: orig})
 		}
-		if p.UsesAppend() {
-			id++
-			st2 := st
-			st2.Rng = nil
-			st2.NoAppendAlias = true
-			emit(Case{P: p, Src: p.Source(st2), Tags: []string{"twin:noalias"}, Twin: "noalias", TwinOf: orig})
-		}
 	}
 	thorough := s.Tier == "thorough"
 	g := &Gen{R: rng, MaxNodes: 40, MaxDepth: 8, Scopey: s.Prop == "C03"}
@@ -276,9 +269,6 @@ func shrinkMode(st Stream, a lib.Args, ids string, modelExe string, budget int64
 		if c.Twin == "notco" {
 			style.NoTCO = true
 		}
-		if c.Twin == "noalias" {
-			style.NoAppendAlias = true
-		}
 		disagree := func(p *Program, stl Style) (bool, string, string) {
 			impl := r.RunSource(p.Source(stl), p.FailAt)
 			mo, err := m.Eval(p)
@@ -313,9 +303,6 @@ func shrinkMode(st Stream, a lib.Args, ids string, modelExe string, budget int64
 		s2 := style
 		s2.NoTCO = true
 		res.NoTCOSame, _, _ = disagree(best, s2)
-		s3 := style
-		s3.NoAppendAlias = true
-		res.NoAliasSame, _, _ = disagree(best, s3)
 		res.ShadowsSelf = best.ShadowsSelfName()
 		res.Appends = best.AppendCount()
 		b, _ := json.Marshal(res)
